@@ -71,7 +71,14 @@ type Server struct {
 
 // Serves the connection once we accepted it
 func (server *Server) serveConn(conn net.Conn) {
-	defer recover()
+	// A panic on this goroutine (TLS callbacks, hooks, the HTTP/2 serve loop) must not
+	// take the whole process down. Note that a bare "defer recover()" recovers nothing:
+	// recover only works when called directly by the deferred function.
+	defer func() {
+		if r := recover(); r != nil {
+			server.logf("panic serving %s: %v", conn.RemoteAddr(), r)
+		}
+	}()
 	defer conn.Close()
 
 	hijackedConn := hack.NewHijackClientHelloConn(conn)
